@@ -23,7 +23,7 @@ TECHNIQUE = ("Lean 4 proofs over an executable model of the verifier (ValidatedE
              "deleted / corrupted per field / consistently forged on grids with one or several shares per server, check with and "
              "without verify, check_and_repair (also through a verify-cap node), post-repair results vs a fresh verify by a second "
              "client, read from the repaired shares only, byte-identity of pre-existing shares")
-LEVEL_TEXT = ("Proved (27 theorems, one _partial): verified_good_implies_all_valid (a share the verifier reports good carries the published UEB, "
+LEVEL_TEXT = ("Proved (28 theorems, one _partial): verified_good_implies_all_valid (a share the verifier reports good carries the published UEB, "
               "exactly the uploader's blocks and only published hash-tree nodes, for arbitrary server answers; each share read with "
               "its own trees); healthy_iff_N_good, recoverable_iff_k_good, corrupt_shares_listed (the arithmetic and lists of "
               "_format_results); noverify_believes_servers (verify=False counts exactly the claimed share numbers); "
@@ -39,7 +39,7 @@ LEVEL_TEXT = ("Proved (27 theorems, one _partial): verified_good_implies_all_val
               "block hash tree, crypttext hash tree, data block; C35 completeness), readable_from_repaired_shares_partial (one share set; a read over it writes only a prefix of the "
               "file and done => the file); repaired_share_block_fetch_chain chains the block-hash and data stages on one node; validation_stages_keep_trees_closed / _sibclosed show Closed and SibClosed, the "
               "premises of the acceptance and whole-pass theorems, are invariants of every tree-writing stage, and "
-              "share_tree_closed_on_every_reachable_node lifts them over any history of passes for the share hash tree; "
+              "share_tree_closed_on_every_reachable_node / ct_tree_closed_on_every_reachable_node lift them over any history of passes; "
               "anchored_repaired_share_delivers_block threads one whole _get_satisfaction pass (all eight stages) for an anchored "
               "repaired share, fresh_repaired_share_delivers_block does the same for the first pass over a share (share hash chain "
               "accepted, block root taken from the validated leaf), known_chain_repaired_share_delivers_block for a new share whose "
